@@ -371,6 +371,7 @@ def obligations(chk):          # noqa: F811
     table_obligations(chk)
     structured_predicates(chk)
     spelling_obligations(chk)
+    alias_obligations(chk)
 
 
 INSTANCE_PREDS = {"ishashable", "isproperty", "isdescriptor", "isbuiltininstance", "isstdlibinstance", "issimpleattribute", "isabstract", "iscallable"}
@@ -415,3 +416,27 @@ def spelling_obligations(chk):
                 bad.append(f"{name}({a!r}) -> {out[0]} but {name}({b!r}) -> {out[1]}")
     clear_typelib_caches()
     chk.add(Ob(f"{INSP}.is*", "predicates-answer-alike-for-both-spellings-of-an-annotation", "ground", [], z3.BoolVal(not bad), {"pairs": n, "bad": bad[:6]}))
+
+
+def alias_obligations(chk):
+    """isstdlibtype of a TypeAliasType is the answer for what the alias stands for (ground, real function, cold caches)."""
+    from typelib.py import inspection, compat
+    from props.concrete_util import clear_typelib_caches
+    ns = {}
+    exec("type IA = int | str\ntype OA = IA | None\ntype LA = list[int]\ntype QA = list[int] | int\ntype PA = QA | None\ntype DA = __import__('datetime').date", ns)
+    SA = compat.TypeAliasType("SA", "list[SA]")
+    want = {"IA": True, "OA": True, "LA": False, "QA": False, "PA": False, "DA": True}
+    bad = []
+    for k, w in want.items():
+        clear_typelib_caches()
+        try:
+            got = inspection.isstdlibtype(ns[k])
+        except Exception as e:
+            got = f"raised {type(e).__name__}"
+        if got is not w:
+            bad.append(f"isstdlibtype({k} = {ns[k].__value__!r}) is {got!r}, expected {w}")
+    clear_typelib_caches()
+    if inspection.isstdlibtype(SA) is not False:
+        bad.append("isstdlibtype of a string-valued alias is not False")
+    clear_typelib_caches()
+    chk.add(Ob(f"{INSP}.isstdlibtype", "an-alias-is-answered-by-what-it-stands-for", "ground", [], z3.BoolVal(not bad), {"bad": bad}))
